@@ -407,6 +407,7 @@ impl Stats {
             hook_restored: true,
             stats: bh.stats.clone(),
             probes: BTreeMap::new(),
+            dispatch_times: Vec::new(),
             sched_digest: bh.sched_digest,
             sched_trace: Vec::new(),
             max_in_callbacks: 0,
@@ -658,6 +659,24 @@ pub struct ReplayFile {
     pub fault_trace: Vec<String>,
     pub events: Vec<String>,
     pub gherkin: Vec<String>,
+    /// The violation depends on process-global state left by an earlier run in the same process
+    /// (panic hook, once-per-process initialisation): the replay executes a fixed warm-up run first.
+    #[serde(default)]
+    pub after_earlier_run: bool,
+}
+
+/// Fixed small plan (with at least one panicking step) executed before a replay whose violation
+/// needs "an earlier run happened in this process".
+pub fn warmup_plan() -> Plan {
+    let prof = crate::genplan::Profile::for_prop("C10", false);
+    for seed in 1u64.. {
+        let p = crate::genplan::gen_plan(seed, &prof);
+        let panics = p.behaviours.iter().any(|(site, bs)| site.starts_with("step:") && bs.first().is_some_and(|b| b.outcome.is_fault() && !b.eager));
+        if panics && p.features.len() <= 2 {
+            return p;
+        }
+    }
+    unreachable!()
 }
 
 pub fn fault_trace(h: &History) -> Vec<String> {
@@ -711,6 +730,7 @@ pub fn make_replay(
         minimised_plan: min.clone(),
         original_plan: plan.clone(),
         shrink_executions: spent,
+        after_earlier_run: false,
         digest: e.digest(),
         schedule: e.history.as_ref().map(|h| h.sched_trace.clone()).unwrap_or_default(),
         fault_trace: e.history.as_ref().map(fault_trace).unwrap_or_else(|| {
